@@ -3,6 +3,12 @@ namespace MaddyVerif.Expect.FuncSkelC15
 
 /-- (declaration, fingerprint of its normalised text): comments, layout, local names and log/trace statements do not count -/
 def funcs : List (String × String) := [
+  ("framework/config/module/check_action.go:FailAction.Apply", "00e744fd3ad38739"),
+  ("framework/config/module/check_action.go:FailActionDirective", "95519f5afb7f4b3d"),
+  ("framework/config/module/check_action.go:ParseActionDirective", "b95b081e8517768a"),
+  ("framework/config/module/check_action.go:ParseRejectDirective", "dae4612b5f13be22"),
+  ("framework/config/module/check_action.go:parseEnhancedCode", "09fb8bd2bca44007"),
+  ("framework/config/module/check_action.go:type FailAction", "188a62456c6af3a2"),
   ("internal/authz/lookup.go:AuthorizeEmailUse", "94f1de250ae92d0e"),
   ("internal/authz/normalization.go:NormalizeAuto", "469169839aed8fca"),
   ("internal/authz/normalization.go:NormalizeNoop", "578c5e58653bd003"),
